@@ -50,6 +50,7 @@ type (
 		Forall bool
 		Vars   []CParam
 		Body   CExpr
+		Trig   []CExpr // optional instantiation pattern: forall x T {e1, e2} :: body
 	}
 	CIte struct{ C, A, B CExpr }
 )
@@ -200,9 +201,19 @@ func (p *parser) parseExpr() CExpr {
 				break
 			}
 		}
+		var trig []CExpr
+		if p.accept("{") {
+			for {
+				trig = append(trig, p.parseExpr())
+				if p.accept("}") {
+					break
+				}
+				p.expect(",")
+			}
+		}
 		p.expect("::")
 		body := p.parseExpr()
-		return CQuant{Forall: t.s == "forall", Vars: vars, Body: body}
+		return CQuant{Forall: t.s == "forall", Vars: vars, Body: body, Trig: trig}
 	}
 	return p.parseIff()
 }
@@ -473,6 +484,7 @@ type FuncContract struct {
 	FrameStrict bool
 	GhostAssigns []GhostAssign
 	Ats          []*AtBlock
+	StartLoop    int      // verify only from the head of this loop on (the prefix is skipped; the loop invariant is assumed there)
 	AutoUse      []string // quantified assumptions (by label) tried for obligations without a clause (no-panic checks)
 }
 
@@ -541,6 +553,7 @@ type Contracts struct {
 	Lemmas    []*Lemma
 	GhostVars map[string]*GhostVar
 	Files     []string
+	InlineRe  []*regexp.Regexp // functions whose key matches are inlined (generated accessors)
 	// raw text of extern spec files (for evidence)
 	ExternText map[string]string
 }
@@ -558,7 +571,7 @@ var clauseKeywords = map[string]bool{
 	"func": true, "loop": true, "type": true, "pred": true, "fn": true, "axiom": true, "lemma": true, "iface": true,
 	"ghostvar": true, "requires": true, "ensures": true, "invariant": true, "modifies": true, "pure": true,
 	"may_panic": true, "props": true, "ghost": true, "guarded_by": true, "immutable": true, "assume": true,
-	"at": true, "assert": true, "autouse": true, "assume_at_acquire": true, "fresh": true, "trusted": true, "inline": true, "rely": true, "params": true, "results": true, "package": true,
+	"start_at_loop": true, "inline_matching": true, "at": true, "assert": true, "autouse": true, "assume_at_acquire": true, "fresh": true, "trusted": true, "inline": true, "rely": true, "params": true, "results": true, "package": true,
 }
 
 type rawClause struct {
@@ -705,6 +718,13 @@ func (c *Contracts) LoadFile(path, defaultPkg string, extern bool) error {
 	}
 	for _, r := range raws {
 		switch r.kw {
+		case "inline_matching":
+			re, err := regexp.Compile(strings.TrimSpace(r.text))
+			if err != nil {
+				return fmt.Errorf("%s:%d: %v", path, r.line, err)
+			}
+			c.InlineRe = append(c.InlineRe, re)
+			curF, curT = nil, nil
 		case "package":
 			pkg = strings.TrimSpace(r.text)
 		case "func", "iface":
@@ -830,6 +850,12 @@ func (c *Contracts) LoadFile(path, defaultPkg string, extern bool) error {
 				}
 				curF.Modifies = append(curF.Modifies, e)
 			}
+		case "start_at_loop":
+			n, err := strconv.Atoi(strings.TrimPrefix(strings.TrimSpace(r.text), "#"))
+			if err != nil {
+				return fmt.Errorf("%s:%d: start_at_loop #n", path, r.line)
+			}
+			curF.StartLoop = n
 		case "autouse":
 			curF.AutoUse = strings.Fields(strings.ReplaceAll(r.text, ",", " "))
 		case "pure":
